@@ -42,6 +42,13 @@ SwitchTrigonal(s, ch) ==
 (* H -> R needs a Gram matrix whose transform is integral *)
 SwitchDomain(s, ch) == s.choice = ch \/ ch = "H" \/ Divisible(Congr(MatHR3, s.gram), 9)
 
+(* a trace may say that its crystal was obtained by switching an already used object from another setting: `pre` is
+   that earlier state and the crystal described by the trace must be exactly the switched state (certified here) *)
+SwitchedFromOK(t) ==
+  ~t.switched \/ ( /\ SwitchDomain(t.pre, t.choice)
+                  /\ SwitchTrigonal(t.pre, t.choice) =
+                       NormState([choice |-> t.choice, n |-> t.n, gram |-> t.gram, pts |-> [i \in DOMAIN t.asym |-> t.asym[i].p]]) )
+
 (* ---- same infinite arrangement ------------------------------------------ *)
 (* unit-cell atoms of a crystal as a set of [z, p] (p wrapped into 0..n-1) *)
 CellAtoms(ops, asym, n) ==
